@@ -565,9 +565,18 @@ func (tl *idTimesLoader) loadFromTSSPFiles(mst string, files *TSSPFiles) {
 	for _, f := range files.Files() {
 		select {
 		case fileLoadLimiter <- struct{}{}:
+			// Reference the file while the list lock is still held.  ReplaceFiles (compaction,
+			// merge) takes that lock exclusively: with the reference in place it finds the
+			// listed files in use and only renames them.  Taken later, in the goroutine, the
+			// reference could come after tsspFile.Remove had closed the reader; LoadIdTimes on
+			// a closed reader loads nothing and reports no error, and the file that replaced
+			// it is not in this listing: the reload ended "loaded" without the flush times of
+			// that file and the next flush wrote an ordered file overlapping the compacted one.
+			f.Ref()
 			tl.wg.Add(1)
 			go func(file TSSPFile) {
 				defer func() {
+					file.Unref()
 					tl.wg.Done()
 					fileLoadLimiter.Release()
 				}()
@@ -590,10 +599,10 @@ func (tl *idTimesLoader) loadFromTSSPFile(tblFile TSSPFile, name string, hook fu
 
 	p := GetIDTimePairs(name)
 
-	var err error
-	FileOperation(tblFile, func() {
-		err = tblFile.LoadIdTimes(p)
-	})
+	// the caller holds a reference to tblFile (taken under the list lock)
+	tblFile.RefFileReader()
+	err := tblFile.LoadIdTimes(p)
+	tblFile.UnrefFileReader()
 
 	if err != nil {
 		logger.NewLogger(errno.ModuleStorageEngine).Error("load id time fail",
